@@ -164,7 +164,6 @@ func (e *Env) concJob(bin, variant string, from, n, sites int, race bool, id str
 	// One P: the tasks are serialised anyway, and with a single P the
 	// per-P caches of sync.Pool (which a changed library might use) behave
 	// the same in every process, so such runs replay too.
-	j.Env = []string{"GOMAXPROCS=1"}
 	if race {
 		j.RaceLog = filepath.Join(e.WorkDir, "race-"+id)
 		j.Env = append(j.Env, "GORACE=halt_on_error=1 exitcode=66 history_size=7 log_path="+j.RaceLog)
@@ -225,6 +224,15 @@ func CheckConc(e *Env) (int, error) {
 		from    int
 	}
 	var races []raceHit
+	type fatalHit struct {
+		variant string
+		race    bool
+		idx     int
+		from    int
+		stderr  string
+		msg     string
+	}
+	var fatals []fatalHit
 
 	budget := budgetSeconds(e.Tier, 50, 780)
 	const racePer, plainPer = 24, 96
@@ -309,11 +317,18 @@ func CheckConc(e *Env) (int, error) {
 					return 2, harnessErr("data race inside the harness itself (job from=%d):\n%s", j.From, report)
 				}
 				races = append(races, raceHit{strings.TrimSuffix(j.Variant, "-race"), idx, report, key, j.From})
+			case j.ExitCode == 2 && fatalInLibrary(j.Stderr) != "":
+				// the Go runtime killed the process from inside library code
+				// (concurrent map access, an invalid unsafe.Pointer conversion
+				// caught by the instrumented build, ...): on the unchanged
+				// tree this never happens, so it is the library's doing
+				idx := j.From + len(j.Results)
+				fatals = append(fatals, fatalHit{strings.TrimSuffix(j.Variant, "-race"), isRace, idx, j.From, j.Stderr, fatalInLibrary(j.Stderr)})
 			default:
 				return 2, harnessErr("conc job %s from=%d exited %d:\n%s", j.Variant, j.From, j.ExitCode, j.Stderr)
 			}
 		}
-		if len(a.Violating) > 0 || len(a.Harness) > 0 || len(races) > 0 {
+		if len(a.Violating) > 0 || len(a.Harness) > 0 || len(races) > 0 || len(fatals) > 0 {
 			break
 		}
 	}
@@ -349,6 +364,42 @@ func CheckConc(e *Env) (int, error) {
 		fmt.Printf("VIOLATION property=%s replay=%s\n", prop, path)
 		_, _, summary := parseRace(rh.report)
 		fmt.Printf("  class=data-race key=%s world=conc run=%d variant=%s-race seed=%d\n  %s\n", rh.key, rh.idx, rh.variant, e.Seed, strings.ReplaceAll(summary, "\n", "\n  "))
+		exit = 1
+	}
+
+	seenFatal := map[string]bool{}
+	for _, fh := range fatals {
+		if seenFatal[fh.msg] {
+			nViol++
+			continue
+		}
+		seenFatal[fh.msg] = true
+		v := kernel.Violation{Property: prop, Class: "fatal-runtime-error", Key: fh.msg, Detail: "the Go runtime aborted the process from inside library code while simulated callers were running: " + fh.msg}
+		if f := matchFinding(findings, v); f != nil {
+			fmt.Printf("KNOWN-FINDING: property=%s %s [%s/%s]\n", prop, f.What, f.Class, f.Key)
+			continue
+		}
+		nViol++
+		variant := fh.variant
+		if fh.race {
+			variant += "-race"
+		}
+		rf := &replay.File{Depth: e.Depth, Procs: ProcsFor(fh.from), Property: prop, World: "conc", Prop: prop, Variant: variant, VerifSeed: e.Seed, Idx: fh.idx, Violation: v, RaceLog: firstLines(fh.stderr, 60)}
+		if rec, rerr := e.recordTapeTolerant(bins.plain[fh.variant], fh.variant, fh.idx, bins.sites); rerr == nil && rec != nil {
+			rf.Tape, rf.Cfg, rf.Trace = rec.Tape, rec.Cfg, rec.Trace
+		} else {
+			rf.Note = "the tape is regenerated from verif_seed and run_index (the run does not complete in the plain build either)"
+		}
+		if fh.idx > fh.from {
+			rf.Prefix = fh.idx - fh.from
+		}
+		dir := filepath.Join(e.VerifDir, "replays")
+		_ = os.MkdirAll(dir, 0o755)
+		path := filepath.Join(dir, fmt.Sprintf("C20-seed%d-conc-%d-fatal.json", e.Seed, fh.idx))
+		if err := rf.Save(path); err != nil {
+			return 2, harnessErr("write replay: %v", err)
+		}
+		fmt.Printf("VIOLATION property=%s replay=%s\n  class=fatal-runtime-error key=%s world=conc run=%d variant=%s seed=%d\n  %s\n", prop, path, fh.msg, fh.idx, variant, e.Seed, strings.ReplaceAll(firstLines(fh.stderr, 25), "\n", "\n  "))
 		exit = 1
 	}
 
@@ -434,7 +485,7 @@ func (e *Env) reportRace(bins concBins, variant string, idx, jobFrom int, report
 	if err != nil {
 		return "", err
 	}
-	rf := &replay.File{Depth: e.Depth, Property: "C20", World: "conc", Prop: "C20", Variant: variant + "-race", VerifSeed: e.Seed, Idx: idx, Violation: v, Cfg: rec.Cfg, Tape: rec.Tape, Trace: rec.Trace, RaceLog: report}
+	rf := &replay.File{Depth: e.Depth, Procs: ProcsFor(jobFrom), Property: "C20", World: "conc", Prop: "C20", Variant: variant + "-race", VerifSeed: e.Seed, Idx: idx, Violation: v, Cfg: rec.Cfg, Tape: rec.Tape, Trace: rec.Trace, RaceLog: report}
 	ctr := 0
 	lock := make(chan struct{}, 1)
 	lock <- struct{}{}
@@ -508,6 +559,9 @@ func (e *Env) replayConc(bin, variant string, rf *replay.File, tape Tape, tag st
 	}
 	defer os.Remove(p)
 	j := e.concJob(bin, variant, rf.Idx, 1, sites, false, "", "-replay", p)
+	if j.Procs = rf.Procs; j.Procs == 0 {
+		j.Procs = 1
+	}
 	e.runJob(j)
 	if j.Err != nil {
 		return nil, j, j.Err
@@ -531,6 +585,9 @@ func (e *Env) raceTrial(raceBin, variant string, rf *replay.File, tape Tape, tag
 	}
 	defer os.Remove(p)
 	j := e.concJob(raceBin, variant+"-race", rf.Idx, 1, sites, true, "t"+tag, "-replay", p)
+	if j.Procs = rf.Procs; j.Procs == 0 {
+		j.Procs = 1
+	}
 	e.runJob(j)
 	if j.ExitCode != 66 {
 		return false, ""
@@ -593,4 +650,37 @@ func loadSiteTable(path string) map[int]siteInfo {
 		out[s.ID] = s
 	}
 	return out
+}
+
+// fatalInLibrary returns the message of a Go runtime "fatal error" whose
+// goroutine trace runs through library code ("" otherwise).
+func fatalInLibrary(stderr string) string {
+	i := strings.Index(stderr, "fatal error: ")
+	if i < 0 {
+		return ""
+	}
+	rest := stderr[i+len("fatal error: "):]
+	msg := strings.SplitN(rest, "\n", 2)[0]
+	if !strings.Contains(rest, "gitlab.com/yawning/secp256k1-voi") {
+		return ""
+	}
+	return strings.TrimSpace(msg)
+}
+
+func firstLines(s string, n int) string {
+	l := strings.Split(s, "\n")
+	if len(l) > n {
+		l = l[:n]
+	}
+	return strings.Join(l, "\n")
+}
+
+// recordTapeTolerant is recordTape for runs that may kill their process.
+func (e *Env) recordTapeTolerant(plainBin, variant string, idx, sites int) (*kernel.Result, error) {
+	j := e.concJob(plainBin, variant, idx, 1, sites, false, "", "-tape", "-trace")
+	e.runJob(j)
+	if len(j.Results) != 1 {
+		return nil, fmt.Errorf("no result")
+	}
+	return j.Results[0], nil
 }
